@@ -31,11 +31,19 @@ class BucketSamplerH(Harness):
             idx2bucket = dict((i, buckets[i]) for i in range(n))
             bucket2size = dict((b, sizes[b]) for b in range(c["B"]))
             bs = D.BucketBatchSampler(base, idx2bucket, bucket2size, c["drop"])
-            predicted = D._get_batch_sampler_len(bs)
-            batches = [list(b) for b in bs]
-        return predicted, batches
+            passes = []
+            for _ in range(c.get("passes", 2)):  # the same sampler object is iterated once per epoch
+                predicted = D._get_batch_sampler_len(bs)
+                passes.append((predicted, [list(b) for b in bs]))
+        return passes
 
-    def _judge(self, buckets, sizes, predicted, batches):
+    def _judge(self, buckets, sizes, passes):
+        viol = []
+        for pi, (predicted, batches) in enumerate(passes):
+            viol.extend((f"pass {pi}: {l}", cnd) for l, cnd in self._judge_pass(buckets, sizes, predicted, batches))
+        return viol
+
+    def _judge_pass(self, buckets, sizes, predicted, batches):
         c = self.cfg
         n = c["n"]
         viol = []
@@ -81,15 +89,13 @@ class BucketSamplerH(Harness):
         c = self.cfg
         buckets = [SymInt(eng.int(f"b{i}", 0, c["B"] - 1)) for i in range(c["n"])]
         sizes = [SymInt(eng.int(f"s{k}", 1, c["smax"])) for k in range(c["B"])]
-        predicted, batches = self._run(buckets, sizes)
-        return dict(outputs=[], viol=self._judge(buckets, sizes, predicted, batches))
+        return dict(outputs=[], viol=self._judge(buckets, sizes, self._run(buckets, sizes)))
 
     def concrete(self, vals):
         c = self.cfg
         buckets = [vals[f"b{i}"] for i in range(c["n"])]
         sizes = [vals[f"s{k}"] for k in range(c["B"])]
-        predicted, batches = self._run(buckets, sizes)
-        return dict(outputs=[], failures=[l for l, cnd in self._judge(buckets, sizes, predicted, batches) if truth(cnd)])
+        return dict(outputs=[], failures=[l for l, cnd in self._judge(buckets, sizes, self._run(buckets, sizes)) if truth(cnd)])
 
 
 class _Item:
@@ -293,7 +299,7 @@ META = dict(
     functions=sorted(set(BucketSamplerH.functions + BucketParamsH.functions + CollateH.functions)),
     files=["src/pydrobert/torch/_dataloaders.py", "src/pydrobert/torch/_datasets.py"],
     explanation=(
-        "BucketBatchSampler.__iter__ and _get_batch_sampler_len run with symbolic bucket assignments and bucket sizes (SymInt; dict lookups and size tests "
+        "BucketBatchSampler.__iter__ (two consecutive passes over the same sampler object) and _get_batch_sampler_len run with symbolic bucket assignments and bucket sizes (SymInt; dict lookups and size tests "
         "fork through the solver); asserted: single-bucket batches in sampler order, never larger than the bucket size, short only as the trailing batch of a "
         "bucket and only when incomplete batches are kept, every index in exactly one batch or dropped only from an incomplete trailing batch, predicted "
         "length == number yielded.  _get_bucket_batch_sampler_params runs with symbolic utterance lengths (sorting forks on comparisons): buckets monotone "
